@@ -13,6 +13,7 @@ import Fir.Model.SimdAlpha
 import Fir.Generated.Alpha
 import Fir.Generated.SimdAlpha
 import Fir.Proofs.SimdDiv16Lemmas
+import Fir.Proofs.SoftLemmas
 import Fir.Proofs.FloatLemmas
 import Fir.Props.C06
 
@@ -98,6 +99,27 @@ theorem simd_div16_within_one (c a : Nat) (hc : c < 65536) (ha0 : 0 < a) (ha : a
     (n.toNat : ℤ) - portable ≤ 1 ∧ (portable : ℤ) - n.toNat ≤ 1 :=
   Fir.Proofs.faithful_within_one 65535 c a _ _
     (Fir.Proofs.simd_div16_lane_faithful c a hc ha0 ha s q n hs hq hn).2 (Fir.C06.div16_faithful c a hc ha)
+
+/-- **unconditional**: the executable 16-bit SIMD lane `Fir.Simd.simdDiv16` - the function the
+    correspondence check compares with the four SSE4.1 / AVX2 kernels, both binary32 operations evaluated
+    exactly - is faithful and saturating for ALL 2^32 (colour, alpha) pairs; no premise about rounding is
+    left: the relative error 2^-24 of the exact binary32 rounding `rnd24` is itself proved
+    (`Fir.Proofs.rnd24_relerr`, via the correctness of the integer logarithm `lg2`) -/
+theorem simd_div16_all (c a : Nat) (hc : c < 65536) (ha : a < 65536) :
+    Fir.Spec.divFaithful 65535 c a (Fir.Simd.simdDiv16 c a) :=
+  Fir.Proofs.simdDiv16_faithful c a hc ha
+
+/-- and therefore within one unit of the portable (translated) `div_and_clip16`, for all 2^32 pairs -/
+theorem simd_div16_all_within_one (c a : Nat) (hc : c < 65536) (ha : a < 65536) :
+    let portable := Fir.Gen.div_and_clip16 c (Fir.Gen.recip_alpha16 a)
+    ((Fir.Simd.simdDiv16 c a : Nat) : ℤ) - portable ≤ 1 ∧ (portable : ℤ) - (Fir.Simd.simdDiv16 c a : Nat) ≤ 1 :=
+  Fir.Proofs.faithful_within_one 65535 c a _ _ (Fir.Proofs.simdDiv16_faithful c a hc ha) (Fir.C06.div16_faithful c a hc ha)
+
+/-- the exact binary32 rounding of the model obeys the standard model of rounding in the normal range -/
+theorem soft_rounding_relerr (n d : ℕ) (hn : 1 ≤ n) (hd : 1 ≤ d) (hn2 : n < 2 ^ 512) (hd2 : d < 2 ^ 150)
+    (hnormal : Fir.Soft.bias - 126 ≤ Fir.Soft.floorLog2Ratio n d) :
+    |Fir.Proofs.valQ (Fir.Soft.rnd24 n d) - (n : ℚ) / d| ≤ 1 / 2 ^ 24 * ((n : ℚ) / d) :=
+  Fir.Proofs.rnd24_relerr n d hn hd hn2 hd2 hnormal
 
 /-- the executable lane model used by the correspondence check gives 0 for alpha = 0 -/
 theorem simd_div16_zero_alpha (c : Nat) : Fir.Simd.simdDiv16 c 0 = 0 := by simp [Fir.Simd.simdDiv16]
